@@ -1,14 +1,90 @@
 import PySMT.Proofs.C07Ops
-/-! # C07 — SMT-LIB export is well-formed and denotes the same thing: property theorems -/
+import PySMT.Proofs.C07Decls
+import PySMT.Proofs.C07Example
+import PySMT.Proofs.C07Dag
+/-!
+# C07 — SMT-LIB export is well-formed and denotes the same thing: property theorems
+
+Model: `Impl/Printer.lean` (`toSexp` = `SmtPrinter`, `toSexpDag` = `SmtDagPrinter`, `scriptOfFormula`); specification:
+`Spec/Sexp.lean` (SMT-LIB 2.6 lexicon) and `Spec/SmtlibText.lean` (`readStd`, `runStd`: the standard's reading);
+hypotheses: `Impl/PrinterHyp.lean` (`Printable` = WT ∧ NamesOK ∧ Normal, `ScriptOK`, `avOrdered`).
+-/
 namespace PySMT.C07
-open PySMT PySMT.Printer PySMT.Std
+open PySMT PySMT.Printer PySMT.Std PySMT.Sexp
 
 /-- Every operator spelling in the table regenerated from `printers.py` (both classes) is the standard's name of that
-operator, except the explicit exclusions `knownNonStd` (F11 `str.to.int`/`int.to.str`, `pow`). -/
+operator, except the explicit exclusions `knownNonStd` (F11 `str.to.int`/`int.to.str`, F44 `pow`); every spelling the
+model looks up is present. -/
 theorem printerOps_std :
     (∀ kv ∈ Gen.PrinterOps.tree, kv ∉ knownNonStd → entryStd kv = true) ∧
     (∀ kv ∈ Gen.PrinterOps.dag, kv ∉ knownNonStd → entryStd kv = true) ∧
-    tableComplete Gen.PrinterOps.tree = true ∧ tableComplete Gen.PrinterOps.dag = true :=
-  ⟨printerOps_std_tree, printerOps_std_dag, printerOps_complete.1, printerOps_complete.2⟩
+    tableComplete Gen.PrinterOps.tree = true ∧ tableComplete Gen.PrinterOps.dag = true ∧
+    SpellStd treeSpell ∧ SpellStd dagSpell :=
+  ⟨printerOps_std_tree, printerOps_std_dag, printerOps_complete.1, printerOps_complete.2, treeSpell_std, dagSpell_std⟩
+
+/-- Token-level round trip of the reader. -/
+theorem sexp_tokens_rt (s : Sexp) : parseToks (toToks s) = .ok [s] := parseToks_toToks s
+
+/-- Character-level round trip: the standard lexer + reader invert `render` on every S-expression whose tokens have a
+spelling in the SMT-LIB 2.6 lexicon (full lexicon: numerals, decimals, `#b`/`#x`, keywords, reserved words, simple and
+quoted symbols, string literals with `""`). -/
+theorem render_read (s : Sexp) (h : Sexp.WF s = true) : Sexp.read (Sexp.render s) = .ok [s] := Sexp.render_read s h
+
+/-- `utils.quote` spells the symbol: for a name of printable characters other than `|` and `\\` that is not a reserved
+word, the standard lexer reads `quote(name)` as the one token that denotes the symbol `name`. -/
+theorem quote_std (n : String) (hc : n.toList.all nameChar = true) (hr : isReserved n = false) :
+    quoteAtom n = Sexp.sym n ∧ ∃ tok, Sexp.sym n = .atom tok ∧ symName? tok = some n :=
+  ⟨quoteAtom_eq n hc hr, symName?_sym n hc⟩
+
+/-- The standard's reading of the tree printer's output is the formula itself (array values as the store chains they
+are printed as). This is the strong form the print→parse property (C09) builds on. -/
+theorem read_toSexp (env : SEnv) (t : Term) (h : Printable env [] t = true) :
+    readStd env [] (toSexp t) = .ok (unfoldAV t) := Printer.read_toSexp env t h
+
+/-- Tree printing is sound: the printed text, read with the standard's semantics, has the formula's sort and, under
+every interpretation, the formula's value.
+`_partial`: `avOrdered` (an array value with ≥ 2 assignments lists them in the order the printed store chain applies
+them — commutation of stores on distinct keys is not proved); `Printable` excludes parametric sort instances and the
+known findings F10 (integer `/`), F11, F44 (`pow`), F45 (names with `|` `\\`), F46 (non-ASCII / `\\u` strings). -/
+theorem print_sound_partial (env : SEnv) (t : Term) (h : Printable env [] t = true) (ho : avOrdered t = true) :
+    ∃ t' τ, readStdTy env [] (toSexp t) = .ok (t', τ) ∧ t.typeOf = some τ ∧ ∀ I, eval I t' = eval I t :=
+  Printer.print_sound_partial env t h ho
+
+/-- The script of a formula is accepted by the strict interpreter (declared before use, declared once), its
+declarations are exactly the formula's sorts and free symbols, its only assertion is the formula.
+`_partial`: plain declared sorts only; tree form of the assertion. -/
+theorem decls_before_use_partial (logic : String) (t : Term) (h : ScriptOK logic t = true) :
+    ∃ st, runStd (scriptOfFormula logic false t) = .ok st ∧ st.env = scriptEnv logic t ∧ st.live = [unfoldAV t] ∧
+      (∀ s ∈ t.fv, s ∈ st.env.funs) := Printer.decls_before_use_partial logic t h
+
+/-- DAG printing, structure and let-freshness: `toSexpDag t` is a chain of single-binding `let`s over generated names
+`.def_k`, none of which is the quoted name of a free symbol of `t` (no user symbol is captured), and the standard reads it
+binding by binding (each right-hand side in the scope of the earlier bindings, the key in the scope of all).
+`_partial`: that each right-hand side reads as the sub-formula it was printed for (the memoization invariant of the
+work-stack machine, incl. nested printers for quantifier bodies) is not proved — K (`cmp_print dag`) and S (`chk_print` on
+the DAG text, `chk_script`) check it on every generated formula. -/
+theorem printDag_sound_partial (t : Term) :
+    ∃ (binds : List (String × Sexp)) (key : Sexp),
+      toSexpDag t = letWrap (binds.map (fun b => (Sexp.atom b.1, b.2))) key ∧
+      (∀ b ∈ binds, ∃ k, b.1 = defName k ∧ b.1 ∉ t.fv.eraseDups.map (fun s => pyQuote s.name)) ∧
+      ∀ (env : SEnv) (scope : List Binding),
+        rd env scope (toSexpDag t) = match readBinds env scope binds.reverse with
+          | .ok sc => rd env sc key
+          | .error err => .error err := printDag_chain t
+
+/-! ## non-vacuity: the hypotheses are satisfiable (`Term.typeOf`, `Printable`, … are compiled by well-founded
+recursion, so the instances are unfolded by hand rather than `decide`d) -/
+
+section
+/-- the hypotheses of `decls_before_use_partial` (hence of `read_toSexp`, `print_sound_partial`) hold for
+`t1 = (<= |x y| (- 5))` in `QF_LIA` (`Proofs/C07Example.lean`) -/
+example : ScriptOK "QF_LIA" t1 = true ∧ Printable (scriptEnv "QF_LIA" t1) [] t1 = true ∧ avOrdered t1 = true :=
+  ⟨scriptOK_t1, pr_t1 _ (by simp [scriptEnv, fv_t1, SEnv.lookupFun, x]) (by decide), avOrdered_t1⟩
+/-- the hypothesis of `render_read` -/
+example : Sexp.WF (.list [.atom "<=", .atom "x y", .list [.atom "-", .atom "5"], .str "a\"b", .atom "|12|", .atom "#b01"]) = true := by
+  decide +kernel
+/-- the known findings are really excluded: `stdTy` refuses `str.to.int` and integer division -/
+example : stdTy .strToInt .none [.str] = none ∧ stdTy .div .none [.int, .int] = none := by decide
+end
 
 end PySMT.C07
